@@ -3,6 +3,8 @@ package checks
 import (
 	"bytes"
 	"fmt"
+	"regexp"
+	"strconv"
 	"strings"
 
 	"github.com/jsightapi/jsight-api-go-library/directive"
@@ -299,7 +301,7 @@ func c07EvalFaults(t *fw.T, c *fw.Case) {
 
 // ---- skeleton twins: directive-kind sequences, the body written in place by text substitution ----
 
-func c07RenderSkeleton(body, host []int, macroFirst bool) (macroForm, inPlace string) {
+func c07RenderSkeleton(body, host []int, macroFirst, sharePaths bool, newline string) (macroForm, inPlace string) {
 	u := 1000
 	renderSeq := func(seq []int, indent string, paste string) string {
 		var sb strings.Builder
@@ -330,15 +332,39 @@ func c07RenderSkeleton(body, host []int, macroFirst bool) (macroForm, inPlace st
 	h := renderSeq(host, "", "PASTE @mac\n")
 	u = u0
 	hi := renderSeq(host, "", b)
-	if macroFirst {
-		return "JSIGHT 0.3\n" + macro + h, "JSIGHT 0.3\n" + hi
+	// make Tags and Path usable: one declared tag for every Tags directive, an {id} parameter on every path
+	fix := func(t string) string {
+		t = c07TagsRe.ReplaceAllString(t, "Tags @gfix")
+		if sharePaths { // few distinct paths: several hosts define the same parameterised prefix
+			t = c07PathNumRe.ReplaceAllStringFunc(t, func(m string) string {
+				n, _ := strconv.Atoi(m[2:])
+				return m[:2] + fmt.Sprint(n%2)
+			})
+		}
+		t = c07PathRe.ReplaceAllString(t, "$1/{id}")
+		t = c07TextRe.ReplaceAllString(t, "  text $1\n    second line $1\n\n  last line $1")
+		t = "JSIGHT 0.3\nTAG @gfix\n" + t
+		if newline != "\n" {
+			t = strings.ReplaceAll(t, "\n", newline)
+		}
+		return t
 	}
-	return "JSIGHT 0.3\n" + h + macro, "JSIGHT 0.3\n" + hi
+	if macroFirst {
+		return fix(macro + h), fix(hi)
+	}
+	return fix(h + macro), fix(hi)
 }
+
+var (
+	c07TagsRe    = regexp.MustCompile(`Tags @g\d+`)
+	c07PathNumRe = regexp.MustCompile(`/[ug]\d+`)
+	c07TextRe    = regexp.MustCompile(`  text (\d+)`)
+	c07PathRe = regexp.MustCompile(`((?:URL|GET|POST|PUT|PATCH|DELETE) /[ug]\d+)`)
+)
 
 func c07EvalSkeleton(t *fw.T, c *fw.Case) {
 	body, host := decodeSeq(c.Meta["body"]), decodeSeq(c.Meta["host"])
-	mf, ip := c07RenderSkeleton(body, host, c.Meta["macro_first"] == "true")
+	mf, ip := c07RenderSkeleton(body, host, c.Meta["macro_first"] == "true", c.Index%2 == 1, []string{"\n", "\n", "\r\n", "\n", "\n", "\r"}[c.Index%6])
 	dm := run.Single([]byte(mf))
 	dm.FixedSeed = true
 	di := run.Single([]byte(ip))
@@ -383,8 +409,8 @@ func c07EvalSkeleton(t *fw.T, c *fw.Case) {
 // resolver still finds a place for everything in the host WITH THE BODY WRITTEN IN PLACE of each PASTE, so that most
 // expansions get past context resolution and many documents are accepted as a whole.
 func c07GenSkeleton(r *xrand.Rand, idx int, tier string) *fw.Case {
-	macroKinds := []int{19, 20, 22, 23, 24, 25, 20, 19, 22, 18, 2, 3, 6, 13, 15, 4}
-	hostKinds := []int{7, 13, 14, 16, 19, 20, 20, 5, 24, 22, 18, 23, 25, 17}
+	macroKinds := []int{19, 20, 22, 23, 24, 25, 20, 19, 22, 18, 2, 3, 6, 13, 15, 4, 33, 21}
+	hostKinds := []int{7, 13, 14, 16, 19, 20, 20, 5, 24, 22, 18, 23, 25, 17, 33, 33, 21, 21, 9}
 	var body []int
 	// every third case treats PASTE as opaque while growing: the body only has to fit into a MACRO, so that written in
 	// place it is usually NOT resolvable - the library must then refuse the macro form too (accepting it is the violation)
